@@ -79,6 +79,8 @@ def judge(n, ops, opts, res, known=()):
     acc["levels"]["QuadraticFunctionalConstraint"] = 2
     run = conv.convert(n, acc, list(opts) + ["cvt:mip:eps=%s" % repr(2.0 ** -10)])
     cobj = dict(model=nl.model_to_obj(n), opts=list(opts), ops=ops)
+    if common.alloc_limit(run, res):
+        return None
     if run.sanitizer or run.signal:
         return ("crash: %s" % common.crash_head(run.err), cobj, "crash")
     fm = run.dump
